@@ -5,29 +5,38 @@
 (* threads on one shared parser whose references are still pending.        *)
 (* One action per source statement that reads or writes shared state:       *)
 (*   Check     if not self.forward_refs: return False                        *)
-(*   Acquire   with self._resolve_lock:   (after the fix)                    *)
+(*   Acquire   with self._resolve_lock:   (after the first fix)              *)
 (*   Snapshot  for name in list(self.forward_refs)                           *)
 (*   Lookup    ref, constraints = self.forward_refs[name]   (pinned commit)  *)
-(*             item = self.forward_refs.get(name) ...        (after the fix)  *)
-(*   Eval      evaluate_forward_ref(ref, ...)                                *)
+(*   Eval      evaluate_forward_ref(ref, ...)   (evaluates again: the value  *)
+(*             is the bare class until Annot)                                *)
 (*   Annot     ref.__forward_value__ = parse_annotation(value, constraints)  *)
-(*   Pop       self.forward_refs.pop(name)  /  .pop(name, None)              *)
+(*   Pop       self.forward_refs.pop(name)        (inside the loop)          *)
+(*   Mark      resolved_names.append(name)        (after the second fix)     *)
 (*   UpdField  for field in self.fields.values(): field.resolve_forward_refs *)
-(*   Parse     the conversion that follows reads the references              *)
+(*   ClearLocal  ref.__forward_evaluated__ = False  (function-local classes) *)
+(*   PopAll    for name in resolved_names: self.forward_refs.pop(name, None) *)
+(*   ReadField the conversion picks up field.type (a reference or its value) *)
+(*   Convert   ... and dereferences it: a reference must be evaluated *now*  *)
 (* P: every call ends like the call made alone: "ok"; never an internal      *)
 (* error, never a reference that is not evaluated.                           *)
 (***************************************************************************)
 EXTENDS Naturals, Sequences, FiniteSets, TLC
-CONSTANTS Threads, Names, Cons, Variant
-\* Variant: "orig" (pinned commit) | "tolerant" (get/pop with default, no lock) | "locked" (after the fix: commit:
-\* an unlocked Check, then the whole resolution under the parser's lock with a second Check inside)
+CONSTANTS Threads, Names, Cons, Variant, Local
+\* Variant: "orig" (pinned commit) | "tolerant" (get/pop with default, no lock) | "locked" (commit 0c1f78a: an unlocked
+\* Check, then the whole resolution under the parser's lock with a second Check inside; names popped inside the loop)
+\* | "deferred" (commit 0057f32: as locked, names popped after the fields were updated and the local references cleared)
 \* Cons: the names whose reference carries Field constraints (annotating such a reference twice is a ConfigError)
-VARIABLES pending, evald, annotated, updated, lock, pc, todo, cur, resolved, outcome
-vars == <<pending, evald, annotated, updated, lock, pc, todo, cur, resolved, outcome>>
+\* Local: the class is local to a function (its evaluated references are cleared again after the fields were updated)
+VARIABLES pending, evald, annotated, ftype, lock, pc, todo, cur, resolved, outcome, mine, held
+vars == <<pending, evald, annotated, ftype, lock, pc, todo, cur, resolved, outcome, mine, held>>
+Locked == Variant \in {"locked", "deferred"}
+Deferred == Variant = "deferred"
 SeqOf(S) == CHOOSE s \in [1..Cardinality(S) -> S] : \A x, y \in 1..Cardinality(S) : x # y => s[x] # s[y]
-Init == /\ pending = Names /\ evald = {} /\ annotated = {} /\ updated = FALSE /\ lock = 0
+Init == /\ pending = Names /\ evald = {} /\ annotated = {} /\ ftype = [n \in Names |-> "ref"] /\ lock = 0
         /\ pc = [t \in Threads |-> "Check"] /\ todo = [t \in Threads |-> <<>>] /\ cur = [t \in Threads |-> "none"]
         /\ resolved = [t \in Threads |-> FALSE] /\ outcome = [t \in Threads |-> "running"]
+        /\ mine = [t \in Threads |-> {}] /\ held = [t \in Threads |-> [n \in Names |-> "none"]]
 Goto(t, l) == pc' = [pc EXCEPT ![t] = l]
 \* leaving resolve_forward_refs (return / exception) releases the lock when this thread holds it
 Leave(t, l) == Goto(t, l) /\ lock' = IF lock = t THEN 0 ELSE lock
@@ -35,16 +44,16 @@ LoopNext(t, rest) == /\ todo' = [todo EXCEPT ![t] = rest]
                      /\ Goto(t, IF rest = <<>> THEN "AfterLoop" ELSE "Lookup")
 Fail(t, e) == outcome' = [outcome EXCEPT ![t] = e] /\ Leave(t, "Done")
 Check(t) == /\ pc[t] = "Check"
-            /\ IF pending = {} THEN Goto(t, "Parse") ELSE Goto(t, IF Variant = "locked" THEN "Acquire" ELSE "Snapshot")
-            /\ UNCHANGED <<pending, evald, annotated, updated, lock, todo, cur, resolved, outcome>>
+            /\ IF pending = {} THEN Goto(t, "ReadField") ELSE Goto(t, IF Locked THEN "Acquire" ELSE "Snapshot")
+            /\ UNCHANGED <<pending, evald, annotated, ftype, lock, todo, cur, resolved, outcome, mine, held>>
 Acquire(t) == /\ pc[t] = "Acquire" /\ lock = 0 /\ lock' = t /\ Goto(t, "Check2")
-              /\ UNCHANGED <<pending, evald, annotated, updated, todo, cur, resolved, outcome>>
+              /\ UNCHANGED <<pending, evald, annotated, ftype, todo, cur, resolved, outcome, mine, held>>
 Check2(t) == /\ pc[t] = "Check2"
-             /\ IF pending = {} THEN Leave(t, "Parse") ELSE Goto(t, "Snapshot") /\ UNCHANGED lock
-             /\ UNCHANGED <<pending, evald, annotated, updated, todo, cur, resolved, outcome>>
+             /\ IF pending = {} THEN Leave(t, "ReadField") ELSE Goto(t, "Snapshot") /\ UNCHANGED lock
+             /\ UNCHANGED <<pending, evald, annotated, ftype, todo, cur, resolved, outcome, mine, held>>
 Snapshot(t) == /\ pc[t] = "Snapshot"
                /\ LoopNext(t, IF pending = {} THEN <<>> ELSE SeqOf(pending))
-               /\ UNCHANGED <<pending, evald, annotated, updated, lock, cur, resolved, outcome>>
+               /\ UNCHANGED <<pending, evald, annotated, ftype, lock, cur, resolved, outcome, mine, held>>
 Lookup(t) == /\ pc[t] = "Lookup"
              /\ LET n == Head(todo[t]) IN
                 IF n \in pending
@@ -52,33 +61,61 @@ Lookup(t) == /\ pc[t] = "Lookup"
                 ELSE IF Variant = "tolerant"
                   THEN LoopNext(t, Tail(todo[t])) /\ UNCHANGED <<cur, outcome, lock>>   \* resolved by another thread meanwhile
                   ELSE Fail(t, "KeyError") /\ UNCHANGED <<todo, cur>>
-             /\ UNCHANGED <<pending, evald, annotated, updated, resolved>>
-Eval(t) == /\ pc[t] = "Eval" /\ evald' = evald \cup {cur[t]} /\ Goto(t, "Annot")
-           /\ UNCHANGED <<pending, annotated, updated, lock, todo, cur, resolved, outcome>>
-\* ref.__forward_value__ = parse_annotation(value, constraints): a reference that already carries its
+             /\ UNCHANGED <<pending, evald, annotated, ftype, resolved, mine, held>>
+\* typing evaluates the reference again (localns is not globalns): until Annot its value is the bare class
+Eval(t) == /\ pc[t] = "Eval" /\ evald' = evald \cup {cur[t]} /\ Goto(t, "ReadVal")
+           /\ annotated' = annotated \ {cur[t]}
+           /\ UNCHANGED <<pending, ftype, lock, todo, cur, resolved, outcome, mine, held>>
+\* value = ref.__forward_value__: what Annot is going to annotate
+ReadVal(t) == /\ pc[t] = "ReadVal"
+              /\ held' = [held EXCEPT ![t][cur[t]] = IF cur[t] \in annotated THEN "annotated" ELSE "bare"]
+              /\ Goto(t, "Annot")
+              /\ UNCHANGED <<pending, evald, annotated, ftype, lock, todo, cur, resolved, outcome, mine>>
+\* ref.__forward_value__ = parse_annotation(value, constraints): a value that already carries its
 \* constraints cannot be constrained again (ConfigError: range type must equal value type)
 Annot(t) == /\ pc[t] = "Annot"
-            /\ IF cur[t] \in annotated /\ cur[t] \in Cons
+            /\ IF held[t][cur[t]] = "annotated" /\ cur[t] \in Cons
                  THEN Fail(t, "ConfigError") /\ UNCHANGED <<annotated, resolved>>
                  ELSE /\ annotated' = annotated \cup {cur[t]} /\ resolved' = [resolved EXCEPT ![t] = TRUE]
-                      /\ Goto(t, "Pop") /\ UNCHANGED <<outcome, lock>>
-            /\ UNCHANGED <<pending, evald, updated, todo, cur>>
+                      /\ Goto(t, IF Deferred THEN "Mark" ELSE "Pop") /\ UNCHANGED <<outcome, lock>>
+            /\ UNCHANGED <<pending, evald, ftype, todo, cur, mine, held>>
 Pop(t) == /\ pc[t] = "Pop"
           /\ IF cur[t] \notin pending /\ Variant # "tolerant"
-               THEN Fail(t, "KeyError") /\ UNCHANGED <<pending, todo>>
-               ELSE pending' = pending \ {cur[t]} /\ LoopNext(t, Tail(todo[t])) /\ UNCHANGED <<outcome, lock>>
-          /\ UNCHANGED <<evald, annotated, updated, cur, resolved>>
+               THEN Fail(t, "KeyError") /\ UNCHANGED <<pending, todo, mine>>
+               ELSE /\ pending' = pending \ {cur[t]} /\ mine' = [mine EXCEPT ![t] = @ \cup {cur[t]}]
+                    /\ LoopNext(t, Tail(todo[t])) /\ UNCHANGED <<outcome, lock>>
+          /\ UNCHANGED <<evald, annotated, ftype, cur, resolved, held>>
+Mark(t) == /\ pc[t] = "Mark" /\ mine' = [mine EXCEPT ![t] = @ \cup {cur[t]}] /\ LoopNext(t, Tail(todo[t]))
+           /\ UNCHANGED <<pending, evald, annotated, ftype, lock, cur, resolved, outcome, held>>
 AfterLoop(t) == /\ pc[t] = "AfterLoop"
-                /\ IF resolved[t] THEN Goto(t, "UpdField") /\ UNCHANGED lock ELSE Leave(t, "Parse")
-                /\ UNCHANGED <<pending, evald, annotated, updated, todo, cur, resolved, outcome>>
-UpdField(t) == /\ pc[t] = "UpdField" /\ updated' = TRUE /\ Leave(t, "Parse")
-               /\ UNCHANGED <<pending, evald, annotated, todo, cur, resolved, outcome>>
-\* the conversion needs every reference evaluated and carrying its constraints (annotated)
-Parse(t) == /\ pc[t] = "Parse"
-            /\ outcome' = [outcome EXCEPT ![t] = IF Names \subseteq evald /\ Names \subseteq annotated THEN "ok" ELSE "notEvaluated"]
-            /\ Goto(t, "Done") /\ UNCHANGED <<pending, evald, annotated, updated, lock, todo, cur, resolved>>
-Step(t) == Check(t) \/ Acquire(t) \/ Check2(t) \/ Snapshot(t) \/ Lookup(t) \/ Eval(t) \/ Annot(t) \/ Pop(t)
-           \/ AfterLoop(t) \/ UpdField(t) \/ Parse(t)
+                /\ Goto(t, IF resolved[t] THEN "UpdField" ELSE "ClearLocal")
+                /\ UNCHANGED <<pending, evald, annotated, ftype, lock, todo, cur, resolved, outcome, mine, held>>
+\* field.type = the value of its reference, when that is evaluated at this moment
+UpdField(t) == /\ pc[t] = "UpdField"
+               /\ ftype' = [n \in Names |-> IF ftype[n] = "ref" /\ n \in evald
+                                              THEN (IF n \in annotated THEN "good" ELSE "bare") ELSE ftype[n]]
+               /\ Goto(t, "ClearLocal")
+               /\ UNCHANGED <<pending, evald, annotated, lock, todo, cur, resolved, outcome, mine, held>>
+\* if self.is_local: for ref in clear_refs: ref.__forward_evaluated__ = False; ref.__forward_value__ = None
+ClearLocal(t) == /\ pc[t] = "ClearLocal"
+                 /\ IF Local THEN evald' = evald \ mine[t] /\ annotated' = annotated \ mine[t]
+                             ELSE UNCHANGED <<evald, annotated>>
+                 /\ IF Deferred THEN Goto(t, "PopAll") /\ UNCHANGED lock ELSE Leave(t, "ReadField")
+                 /\ UNCHANGED <<pending, ftype, todo, cur, resolved, outcome, mine, held>>
+PopAll(t) == /\ pc[t] = "PopAll" /\ pending' = pending \ mine[t] /\ Leave(t, "ReadField")
+             /\ UNCHANGED <<evald, annotated, ftype, todo, cur, resolved, outcome, mine, held>>
+\* the conversion reads field.type ...
+ReadField(t) == /\ pc[t] = "ReadField" /\ held' = [held EXCEPT ![t] = ftype] /\ Goto(t, "Convert")
+                /\ UNCHANGED <<pending, evald, annotated, ftype, lock, todo, cur, resolved, outcome, mine>>
+\* ... and a reference among them must be evaluated (and carry its constraints) when it is dereferenced
+Convert(t) == /\ pc[t] = "Convert"
+              /\ outcome' = [outcome EXCEPT ![t] =
+                     IF \E n \in Names : held[t][n] = "ref" /\ n \notin evald THEN "notEvaluated"
+                     ELSE IF \E n \in Cons : held[t][n] = "bare" \/ (held[t][n] = "ref" /\ n \notin annotated) THEN "unconstrained"
+                     ELSE "ok"]
+              /\ Goto(t, "Done") /\ UNCHANGED <<pending, evald, annotated, ftype, lock, todo, cur, resolved, mine, held>>
+Step(t) == Check(t) \/ Acquire(t) \/ Check2(t) \/ Snapshot(t) \/ Lookup(t) \/ Eval(t) \/ ReadVal(t) \/ Annot(t) \/ Pop(t)
+           \/ Mark(t) \/ AfterLoop(t) \/ UpdField(t) \/ ClearLocal(t) \/ PopAll(t) \/ ReadField(t) \/ Convert(t)
 Next == \E t \in Threads : Step(t)
 Spec == Init /\ [][Next]_vars /\ \A t \in Threads : WF_vars(Step(t))
 P_AsAlone == \A t \in Threads : pc[t] = "Done" => outcome[t] = "ok"
